@@ -1664,6 +1664,16 @@ def rule_r13(prog, res) -> None:
     shared_rule(res, c10.rule_r7, "C10", "C10.R7", "C01.R13")
 
 
+def rule_r14(prog, res) -> None:
+    """the linkage pairs each patch with ITS radius and centre: the catalog getters that the linkage zips (ids, centres,
+    radii) enumerate the patches in one order — a getter that runs over the raw patch dictionary (worker arrival
+    order) attaches the radii to other patches, and a wide patch with a compact patch's radius loses links (= C12.R4)"""
+    from . import c12
+    from .common import shared_rule
+
+    shared_rule(res, c12.rule_r4, "C12", "C12.R4", "C01.R14")
+
+
 RULES = [
     ("C01.R1", rule_r1, QUICK),
     ("C01.R2", rule_r2, QUICK),
@@ -1678,4 +1688,5 @@ RULES = [
     ("C01.R11", rule_r11, QUICK),
     ("C01.R12", rule_r12, QUICK),
     ("C01.R13", rule_r13, QUICK),
+    ("C01.R14", rule_r14, QUICK),
 ]
